@@ -357,7 +357,7 @@ pub fn main(o: &Opts) -> Result<i32, String> {
             // cannot join a stalled worker: report and leave
             let path = format!("{replay_dir}/C10/fuzz-hang-{seed}-{h}.json");
             std::fs::create_dir_all(format!("{replay_dir}/C10")).ok();
-            std::fs::write(&path, json!({"property":"C10","kind":"fuzz","seed":seed,"session":h,"what":"no progress for 30 s"}).to_string()).ok();
+            std::fs::write(&path, json!({"property":"C10","kind":"fuzz","seed":seed,"session":h,"what":"no progress for 30 s","hfs":cfg!(feature = "hfs")}).to_string()).ok();
             println!("{}", json!({"sessions": sessions, "hang": h, "replay": path}));
             std::process::exit(1);
         }
@@ -372,7 +372,7 @@ pub fn main(o: &Opts) -> Result<i32, String> {
             continue;
         }
         let path = format!("{replay_dir}/C10/fuzz-{seed}-{i}.json");
-        std::fs::write(&path, json!({"property":"C10","kind":"fuzz","seed":seed,"session":i,"what":p}).to_string())
+        std::fs::write(&path, json!({"property":"C10","kind":"fuzz","seed":seed,"session":i,"what":p,"hfs":cfg!(feature = "hfs")}).to_string())
             .map_err(|e| e.to_string())?;
         viols.push(json!({"op": p.split(':').next().unwrap_or(""), "what": "panic", "cause": "", "expected": "Ok or Err",
                           "observed": p, "replay": path, "name": format!("fuzz session {i}")}));
